@@ -140,6 +140,21 @@ def run(ctx):
             nm = sum(1 for g in gates if g["g"] == "meas")
             ccases.append({"op": "circuit", "mode": "exec", "n": n, "cn": n if rng.random() < 0.8 else n + rng.choice([1, 2]), "v": rand_vec(rng, n, "normalised"),
                            "gates": gates, "draws": [float2bits(0.37)] * nm, "split": 0, "thr": rng.choice([10, 1])})
+    # gates built directly with the wrong NUMBER of targets / controls (in range): building accepts them (it checks indices), executing
+    # the circuit must report the error - never return a state
+    from ..gatecases import KINDS as _KINDS
+    for kind in _KINDS:
+        want_t = 2 if kind == "SWAP" else 1
+        bad = [([], []), ([], [0])] + ([([0, 1], [])] if want_t == 1 else [([0], []), ([0, 1, 2], [])])
+        if kind == "CNOT": bad += [([0], []), ([0], [1, 2])]
+        if kind == "Toffoli": bad += [([0], [1]), ([0], [])]
+        for ts, cs in bad:
+            n = 3
+            g = dict(c06.rand_gate(rng, n, [kind]), g="op"); g["ts"], g["cs"] = ts, cs
+            pre = [c06.rand_any_gate(rng, n, us) for _ in range(rng.randrange(0, 3))]
+            pre = [x for x in pre if x["g"] != "meas"]
+            ccases.append({"op": "circuit", "mode": "exec", "n": n, "cn": n, "v": rand_vec(rng, n, "normalised"), "gates": pre + [g], "draws": [], "split": 0, "thr": rng.choice([10, 1]),
+                           "arity_bad": True})
     # circuits without gates: the width check does not depend on there being a gate to apply
     for n in (1, 2, 3, 4):
         for cn in (n, n + 1, max(1, n - 1), n + 2):
@@ -234,6 +249,8 @@ def run(ctx):
             cst["exec_ok" if e["r"] == "ok" else "exec_err"] += 1
             if c["cn"] != c["n"] and e["r"] == "ok":
                 ctx.violations.append(("a circuit was executed on a state of a different width", {"circuit_case": c, "brief": b}))
+            if c.get("arity_bad") and (e["r"] == "ok" or r.get("trace", {}).get("r") == "ok"):
+                ctx.violations.append(("a gate with the wrong number of targets / controls was executed: a state was returned instead of an error", {"circuit_case": c, "brief": b}))
     stats["circuits"] = cst
     ctx.broken = ctx.broken[:5]
     by = {}
